@@ -65,6 +65,7 @@ func run(ctx *xplor.Ctx) {
 
 	debug.SetGCPercent(400)
 	s := newSut(name, fx)
+	s.deep = ctx.Tier == "thorough"
 	expl := map[*alphabet]*explorerA{}
 	for _, p := range passes {
 		x := expl[p.a]
@@ -99,7 +100,7 @@ func main() {
 	xplor.Main(xplor.Check{
 		ID:    "C16",
 		Level: "exploration",
-		Rule: "part A (storage): every sequence of <= d operations from the empty WAL, each operation executed both by the running node and by a freshly restarted one (new ChainDB+WalDB on the same store), over the alphabet FULL = {append batch through WalDB.SaveEntry: start in {last+1,last,last-1,1} (conflict truncation shorter, equal, longer than the stored suffix), 1..3 entries, kind patterns BBB/ECB/CBE (B block-carrying, E empty, C conf-change), term t or t+1 (t = highest term in the WAL; t+1 comes with a hard state as in raft) | hard state x2 | snapshot at last / last-1 | identity x2 | ClearWAL | ResetWAL x2}: d=4 in quick; thorough adds d=6 over CORE (same starts/lengths/terms, entry kind fixed by the index, one hard state, snapshot at last, ClearWAL, one ResetWAL), d=5 over MEDIUM (CORE + the all-blocks pattern) and, budget permitting, level 5 of FULL (evidence: max_depth_full/medium/core = highest completed level). Sequences reaching the same reference state are merged; the merge is checked, not assumed: the shard owning a reference state compares the canonical raw store content left by every edge arriving there byte for byte. After every operation: store written by the restarted node == store written by the running node; then on the running node and again on a reopened ChainDB+WalDB: last index, GetRaftEntry(i) for i=1..24 (content where stored, absent above the new last and in holes), hard state, snapshot, identity, HasWal; on the reopened one also the block of every block entry, the inverse block->entry index of live entries, and ReadAll(stored snapshot) (entries equal to what was stored, blocks re-materialised byte for byte), fed into raft's MemoryStorage as replayWAL does. CRASH: for every append, every non-empty proper prefix of its durable write units is applied to the pre-state and the reopened log must equal the old or the new reference log and a new hard state must not be durable without its entries; for ClearWAL/ResetWAL every prefix (the bulk cut after every key) followed by the re-execution startRaft performs must equal the uninterrupted result. " +
+		Rule: "part A (storage): every sequence of <= d operations from the empty WAL, each operation executed both by the running node and by a freshly restarted one (new ChainDB+WalDB on the same store), over the alphabet FULL = {append batch through WalDB.SaveEntry: start in {last+1,last,last-1,1} (conflict truncation shorter, equal, longer than the stored suffix), 1..3 entries, kind patterns BBB/ECB/CBE (B block-carrying, E empty, C conf-change), term t or t+1 (t = highest term in the WAL; t+1 comes with a hard state as in raft) | hard state x2 | snapshot at last / last-1 | identity x2 | ClearWAL | ResetWAL x2}: d=4 in quick; thorough adds d=6 over CORE (same starts/lengths/terms, entry kind fixed by the index, one hard state, snapshot at last, ClearWAL, one ResetWAL), d=5 over MEDIUM (CORE + the all-blocks pattern) and, budget permitting, level 5 of FULL (evidence: a_shards_done_<alphabet>_level<k> = 32 when level k is complete). Sequences reaching the same reference state are merged; the merge is checked, not assumed: the shard owning a reference state compares the canonical raw store content left by every edge arriving there byte for byte. After every operation: store written by the restarted node == store written by the running node; then on the running node and again on a reopened ChainDB+WalDB: last index, GetRaftEntry(i) for i=1..24 (content where stored, absent above the new last and in holes), hard state, snapshot, identity, HasWal; on the reopened one also the block of every block entry, the inverse block->entry index of live entries, and ReadAll(stored snapshot) (entries equal to what was stored, blocks re-materialised byte for byte), fed into raft's MemoryStorage as replayWAL does. CRASH: for every append, every non-empty proper prefix of its durable write units is applied to the pre-state and the reopened log must equal the old or the new reference log and a new hard state must not be durable without its entries; for ClearWAL/ResetWAL every prefix (the bulk cut after every key) followed by the re-execution startRaft performs must equal the uninterrupted result. " +
 			"part B (membership): for n=1..5 applied members, 0..2 previously removed members, this node leader / follower / leader with empty raft status, every health vector (quick: healthy|slow|syncing per follower; thorough: healthy|lagging inside the gap|slow beyond the gap|probing|snapshot; the leader's own progress entry replicate|probe), every REMOVE(id of a member, of a removed member, unknown, 0) and every ADD(name, address, peer id each in {empty, of member k, of removed member j, fresh}) through the real request path BlockFactory.MakeConfChangeProposal, and the same with explicit ids through validateChangeMembership as the apply path calls it: the code must refuse whenever the request duplicates a member's name/id/address/peer id, re-adds a removed id, removes an id that is not a member, or removes a healthy node so that (healthy-1) < (n-1)/2+1. Refusals for other reasons are counted, not judged. distinct_nontrivial = reference states with a non-empty log whose every incoming edge passed (part A, per alphabet) + membership cases with verdict accept or must-refuse that passed (part B).",
 		Assumptions: []string{
 			"verifdb models the store: a committed transaction is atomic, a flushed bulk is applied in key order and may be cut anywhere, single Set/Delete are atomic",
@@ -114,7 +115,7 @@ func main() {
 			if tier == "thorough" {
 				return 13 * time.Minute
 			}
-			return 100 * time.Second
+			return 150 * time.Second
 		},
 		Run: run,
 	})
